@@ -96,6 +96,12 @@ func pairCase(c *mon.Case, r *mon.Run, tr string, dir string, f fault, seed uint
 		half.SetCut(f.off, memwire.CutEOF)
 	case "rst":
 		cutWithError(half, f.off)
+		if seed%3 == 1 {
+			// the reset kills the connection as a whole: the end that saw it
+			// cannot write either
+			[]*memwire.Conn{sw, cw}[f.dir].SetResetFailsWrites(true)
+			r.Count("resets_that_also_fail_writes", 1)
+		}
 	case "silence":
 		half.SetCut(f.off, memwire.CutSilence)
 	case "flip":
